@@ -53,6 +53,10 @@ def Err(v):
     return Adt(RESULT, 1, {0: v})
 
 
+# variant names of foreign enums, learned from the aggregates seen while evaluating (MIR names them)
+VARIANT_NAMES = {}
+
+
 def is_int(v):
     return isinstance(v, tuple) and v[0] == "int"
 
@@ -87,6 +91,8 @@ def describe(v, facts=None, depth=0):
             vs = facts.adts[path]["variants"]
             if v[2] < len(vs):
                 name = vs[v[2]]["name"]
+        elif (path, v[2]) in VARIANT_NAMES:
+            name = VARIANT_NAMES[(path, v[2])]
         if v[3] and depth < 3:
             return name + "(" + ",".join(describe(v[3][i], facts, depth + 1) for i in sorted(v[3])) + ")"
         return name
@@ -94,8 +100,9 @@ def describe(v, facts=None, depth=0):
 
 
 class Interp:
-    def __init__(self, facts, oracle=None, max_steps=20000, max_depth=5):
+    def __init__(self, facts, oracle=None, max_steps=20000, max_depth=5, inline=()):
         self.f = facts
+        self.inline = set(inline)
         self.oracle = oracle or (lambda *a: None)
         self.heap = {}
         self.frames = {}
@@ -343,6 +350,8 @@ class Interp:
             if kind[0] == "tuple":
                 return ("tuple", vals)
             if kind[0] == "adt":
+                if len(kind) > 3 and isinstance(kind[2], str):
+                    VARIANT_NAMES[(kind[1], kind[3])] = kind[2]
                 return ("adt", kind[1], kind[3], {i: v for i, v in enumerate(vals)})
             if kind[0] in ("closure", "coroutine", "coroutine_closure"):
                 return ("closure", kind[1], vals)
@@ -351,6 +360,9 @@ class Interp:
             a = self.deref_val(self.operand(fid, r[2]))
             b = self.deref_val(self.operand(fid, r[3]))
             return self.binop(r[1], a, b, s["sp"])
+        if k == "repeat":
+            a = self.deref_val(self.operand(fid, r[1]))
+            return Tok("[%s; _]" % self.tokname(a))
         if k == "un":
             a = self.deref_val(self.operand(fid, r[2]))
             if is_int(a):
@@ -555,7 +567,7 @@ class Interp:
                 return self.call_body(cl[1], list(tup[1]), depth + 1)
         # --- accessor applied to opaque tokens only: nothing to learn by inlining, keep it symbolic
         dargs = [self.deref_val(a) for a in args]
-        if args and all(d is not None and d[0] == "tok" for d in dargs):
+        if args and all(d is not None and d[0] == "tok" for d in dargs) and not ({res_path, path} & self.inline):
             # try the body first: a pure function of opaque arguments may still have a determined result
             # (e.g. a decision made by comparing the arguments); otherwise keep the application symbolic
             for p in (res_path, path):
@@ -721,9 +733,10 @@ def field(facts, val, path, name):
     return val[3].get(names.index(name), TOP)
 
 
-def run(facts, path, args, heap=None, oracle=None):
-    """evaluate body `path`; returns (return value, heap, events) or raises Unsupported"""
-    it = Interp(facts, oracle)
+def run(facts, path, args, heap=None, oracle=None, inline=()):
+    """evaluate body `path`; returns (return value, heap, events) or raises Unsupported.
+    `inline`: body paths that are always inlined, also when all their arguments are opaque"""
+    it = Interp(facts, oracle, inline=inline)
     it.heap = dict(heap or {})
     ret = it.call_body(path, args, 0)
     return ret, it.heap, it.events
